@@ -27,10 +27,10 @@ P = {
                            genx={Q: ("CfgsExpiry", 6), T: ("CfgsExpiry", 8)},
                            sim={Q: ("CfgsExpiryC", 200, 12), T: ("CfgsExpiryC", 3000, 20)},
                            simb=dict(MaxCodes=2, MaxAT=10, MaxRT=8, MaxNow=6))]),
-    "C02": dict(family="C02", mc={Q: ("CfgsOne", dict(MaxCodes=1, MaxAT=3, MaxRT=2, MaxNow=3, Depth=4)),
-                                  T: ("CfgsStrategies", dict(MaxCodes=2, MaxAT=4, MaxRT=3, MaxNow=3, Depth=5))},
-                genx={Q: ("CfgsOne", 2), T: ("CfgsOne", 3)},
-                sim={Q: ("CfgsStrategiesC", 500, 8), T: ("CfgsStrategiesC", 8000, 14)},
+    "C02": dict(family="C02", mc={Q: ("CfgsCode", dict(MaxCodes=1, MaxAT=3, MaxRT=2, MaxNow=3, Depth=4)),
+                                  T: ("CfgsCodeT", dict(MaxCodes=2, MaxAT=4, MaxRT=3, MaxNow=3, Depth=5))},
+                genx={Q: ("CfgsCode", 2), T: ("CfgsCode", 3)},
+                sim={Q: ("CfgsCodeTC", 500, 8), T: ("CfgsCodeTC", 8000, 14)},
                 simb=dict(MaxCodes=3, MaxAT=8, MaxRT=6, MaxNow=4)),
     "C03": dict(family="C03", mc={Q: ("CfgsPkce", dict(MaxCodes=1, MaxAT=3, MaxRT=2, MaxNow=0, Depth=5)),
                                   T: ("CfgsPkce", dict(MaxCodes=2, MaxAT=4, MaxRT=3, MaxNow=0, Depth=6))},
